@@ -631,3 +631,112 @@ def replay(env, payload):
         print("disagreement: %s" % d.get("stream"))
     print("replay: %s" % ("still failing" if bad else "passes now"))
     return 1 if bad else 0
+
+
+# ============================================================================================
+# Round 2: "accepted by the static rules" ==> wf_static is a THEOREM
+# (Properties/C06.v C06_rules_accept_implies_wf_static, proofs/RulesImplyWf.v):
+#     StaticRules.check p = []  /\  ids_consistent p  /\  idx_targets p   ==>   wf_static p
+# StaticRules.check is C09's executable model of the resolver's static rules (names only).
+# What remains TESTED, on every program of every stream, with the extracted functions on the
+# implementation's own resolved AST (nsmodel mode langc06r):
+#   (4) resolver accepts  ==>  StaticRules.check = []      (the premise; C09's correspondence
+#       requires the full coincidence, this is the direction C06 uses)
+#   (5) resolver accepts  ==>  ids_consistent = true and idx_targets = true on the REAL ids:
+#       every call carries the FunctionId of the lexically visible definition, FunctionIds are
+#       distinct, parameters fit the local-id range; index-assignment targets are index
+#       expressions (parser)
+#   (6) the theorem instance itself, on accepted AND rejected programs: rules /\ ids /\ idxt
+#       ==> wf_static.  It is proved, so a counterexample means the dump / AST reader / extraction
+#       no longer present the program the theorem talks about.
+# Appended, not edited: the round-1 functions above are wrapped.
+
+TRUSTED_EXTRA[2] = (
+    "C06: wf_static of an accepted program is PROVED from `StaticRules.check p = []` (C09's model of the static rules, "
+    "tied to src/resolver.rs by C09's correspondence and re-evaluated here on every program) together with "
+    "ids_consistent/idx_targets, which are TESTED on the resolver's real ids for every accepted program; "
+    "wf_scoped of accepted programs remains a tested implication")
+TRUSTED_EXTRA.append("C06: the AST reader of coq/extract/mode_langc06r.ml (copy of mode_langc06.ml's)")
+
+_RULES_TIE = {"hist": {}, "theorem_instances": 0, "premise_true": 0}
+
+
+def run_rules_tie(env, name, impl_recs, order):
+    """nsmodel langc06r on every dumped AST -> id -> {rules, wf, ids, calls, fids, prange, idxt, lexical}"""
+    inp = os.path.join(env.work, name + ".rw.in")
+    outp = os.path.join(env.work, name + ".rw")
+    with open(inp, "w") as f:
+        for cid in order:
+            r = impl_recs.get(cid)
+            if not r or not r.get("ast"):
+                continue
+            f.write("case %s\n%s\nend %s\n" % (cid, r["ast"], cid))
+    rc, out = common.sh([common.NSMODEL, "langc06r", inp, outp], timeout=900)
+    if rc != 0:
+        raise RuntimeError("nsmodel langc06r failed: %s" % out[-500:])
+    res = {}
+    cur = None
+    for l in open(outp).read().splitlines():
+        if l.startswith("case "):
+            cur = l[5:]
+        elif l.startswith("rw ") and cur:
+            t = l.split()
+            res[cur] = dict(zip(t[1::2], t[2::2]))
+        elif l.startswith("badast") and cur:
+            res[cur] = {"badast": l}
+    return res
+
+
+_run_wf_round1 = run_wf
+
+
+def run_wf(env, name, impl_recs, order):       # noqa: F811
+    res = _run_wf_round1(env, name, impl_recs, order)
+    rt = run_rules_tie(env, name, impl_recs, order)
+    for cid, d in rt.items():
+        res.setdefault(cid, {})["rules_tie"] = d
+    return res
+
+
+_judge_round1 = judge
+
+
+def judge(env, cid, src, rec, mrec, wf, out, release=False):       # noqa: F811
+    _judge_round1(env, cid, src, rec, mrec, wf, out, release)
+    if release or (rec.get("crash") and rec["crash"][0] == "frontend"):
+        return          # the release pass reuses the debug pass's records: judged once
+    d = (wf.get(cid) or {}).get("rules_tie")
+    if not d or "badast" in d:
+        return
+    acc = bool(rec.get("accepted"))
+    k = "accepted=%d rules=%s ids=%s idxt=%s wf=%s" % (acc, d["rules"], d["ids"], d["idxt"], d["wf"])
+    _RULES_TIE["hist"][k] = _RULES_TIE["hist"].get(k, 0) + 1
+    _RULES_TIE["theorem_instances"] += 1
+    if acc and d["rules"] != "1":
+        out["disagreements"].append({"stream": "static-rules-reject-accepted", "id": cid, "case": src, "tie": d})
+    if acc and (d["ids"] != "1" or d["idxt"] != "1"):
+        out["disagreements"].append({"stream": "ids-inconsistent-on-accepted", "id": cid, "case": src, "tie": d,
+                                     "which": [x for x in ("calls", "fids", "prange", "idxt") if d.get(x) != "1"]})
+    if d["rules"] == "1" and d["ids"] == "1" and d["idxt"] == "1":
+        _RULES_TIE["premise_true"] += 1
+        if d["wf"] != "1":
+            out["disagreements"].append({"stream": "theorem-instance-violated:rules-accept-implies-wf_static",
+                                         "id": cid, "case": src, "tie": d})
+
+
+_correspond_round1 = correspond
+
+
+def correspond(env, searching=False, model=True):       # noqa: F811
+    _RULES_TIE["hist"] = {}
+    _RULES_TIE["theorem_instances"] = 0
+    _RULES_TIE["premise_true"] = 0
+    res = _correspond_round1(env, searching=searching, model=model)
+    res["extra"]["rules_tie"] = {
+        "what": "per program with an AST: resolver verdict x StaticRules.check=[] x ids_consistent x idx_targets x wf_static "
+                "(extracted, on the resolver's own ids); theorem: rules & ids & idxt => wf",
+        "histogram": dict(_RULES_TIE["hist"]),
+        "programs": _RULES_TIE["theorem_instances"],
+        "premise_true": _RULES_TIE["premise_true"]}
+    res["rule"] += "; each program's dumped AST is also run through the extracted StaticRules.check / ids_consistent / idx_targets (theorem premise) "
+    return res
